@@ -576,6 +576,94 @@ func runC01(r *Run) {
 			}
 		}
 		r.atLeast("selector assignments", n, 3)
+		// the re-based cursor: wherever indexRoute is assigned from a binary search over the bucket, the next index
+		// examined (cursor+1, next() pre-increments) must be the first route registered AFTER the current one.
+		// Sign-domain evaluation (E6): the search predicate over sign(tree[i].pos − current.pos) must be (F,F,T) and the
+		// cursor must be the search result − 1. (F,T,T) with offset 0 equals this only when the current route is in the bucket.
+		for _, f := range g.Funcs {
+			if f.Pkg == nil || f.Pkg.Pkg.Path() != fiberMod {
+				continue
+			}
+			for _, fr := range fieldRefs(f) {
+				if !fr.Write || fr.Name != "DefaultCtx.indexRoute" || fr.Val == nil {
+					continue
+				}
+				srch := dependsOn(fr.Val, func(v ssa.Value) bool {
+					c, ok := v.(*ssa.Call)
+					return ok && calleeName(&c.Call) == "sort.Search"
+				})
+				if srch == nil {
+					continue
+				}
+				call := srch.(*ssa.Call)
+				var pred *ssa.Function
+				for _, a := range call.Call.Args {
+					if mc, ok := a.(*ssa.MakeClosure); ok {
+						pred = mc.Fn.(*ssa.Function)
+					}
+				}
+				offset, okOff := int64(0), fr.Val == ssa.Value(call)
+				if bo, ok := fr.Val.(*ssa.BinOp); ok && bo.X == ssa.Value(call) {
+					if k, isC := constInt(asConst(bo.Y)); isC {
+						switch bo.Op {
+						case token.SUB:
+							offset, okOff = -k, true
+						case token.ADD:
+							offset, okOff = k, true
+						}
+					}
+				}
+				key := f.Name() + ":rebase-lands-before-first-later-route"
+				if pred == nil || !okOff {
+					r.undecided(key, r.pos(fr.Instr), "cursor is derived from sort.Search in a form the rule does not understand")
+					continue
+				}
+				// evaluate predicate on the three signs
+				var rets []*ssa.Return
+				for _, in := range instrsWhere(pred, isReturn) {
+					rets = append(rets, in.(*ssa.Return))
+				}
+				okPred := false
+				desc := "predicate is not a single comparison of tree[i].pos with the current position"
+				if len(rets) == 1 {
+					ci := decompose(retOperand(rets[0], 0))
+					if ci.Other != nil {
+						lhsIsElem := loadOfField(ci.Root, "Route.pos") && dependsOn(ci.Root, func(v ssa.Value) bool { _, ok := v.(*ssa.Parameter); return ok }) != nil
+						rhsIsElem := loadOfField(ci.Other, "Route.pos") && dependsOn(ci.Other, func(v ssa.Value) bool { _, ok := v.(*ssa.Parameter); return ok }) != nil
+						op := ci.Op
+						if ci.Neg {
+							op = negOp(op)
+						}
+						if rhsIsElem && !lhsIsElem {
+							op = flipOp(op)
+						}
+						if lhsIsElem != rhsIsElem {
+							ev := func(sign int) bool {
+								switch op {
+								case token.GTR:
+									return sign > 0
+								case token.GEQ:
+									return sign >= 0
+								case token.LSS:
+									return sign < 0
+								case token.LEQ:
+									return sign <= 0
+								case token.EQL:
+									return sign == 0
+								case token.NEQ:
+									return sign != 0
+								}
+								return false
+							}
+							desc = fmt.Sprintf("predicate on signs (<,=,>) = (%v,%v,%v), cursor = result%+d", ev(-1), ev(0), ev(1), offset)
+							okPred = !ev(-1) && !ev(0) && ev(1) && offset == -1
+						}
+					}
+				}
+				r.check(okPred, key, r.pos(fr.Instr), "search predicate is `pos > current` and the cursor is result−1: the next route examined is the first one registered later",
+					"after a path override the cursor does not land directly before the first later-registered route of the new bucket ("+desc+"): when the rewriting route is not itself in the destination bucket the first later route is skipped")
+			}
+		}
 	})
 }
 
